@@ -111,6 +111,13 @@ partial def parseGoData (j : Json) : R GoData := do
         | [g, t, x] => pure ((← g.getStr?), (← t.getStr?), (← parseGoData x))
         | _ => throw "bad struct field")
       pure (.strct es)
+    else if let some v := (if (optField j "shared").isSome then optField j "c" else none) then
+      -- one Config object used at several places of the case: every use copies it, the model needs its content only
+      let o ← parseOpts ((optField v "opts").getD (.arr #[]))
+      let d ← parseGoData ((optField v "v").getD .null)
+      match newFrom o d with
+      | .ok t => pure (.cfg t)
+      | _ => throw "shared config source does not normalize"
     else if let some v := optField j "c" then
       let o ← parseOpts ((optField v "opts").getD (.arr #[]))
       let d ← parseGoData ((optField v "v").getD .null)
